@@ -1967,14 +1967,10 @@ def tsf_part(run, runner):
                 if not close(o["C"][0], want):
                     run.violation("timestepfactor:continuous-centers", "timeStepFactor 2, step %d: centre %r, schedule at the last updated step %d prescribes %r" % (t, o["C"][0], tu, want), rp)
             elif k == 4:
-                # theorem C06_center_schedule_timestepfactor: centre = schedule at last_update = f*(min(t, t0+N)/f) = 2 for t >= 2
-                lu = 2 * (min(t, 3) // 2)
-                model = 1.0 + 2.0 * min(1.0, lu / 3.0)
-                if not close(o["C"][0], model):
-                    run.violation("timestepfactor:continuous-centers", "timeStepFactor 2, N 3, step %d: centre %r, the schedule at the last update not beyond the end (%d) gives %r" % (t, o["C"][0], lu, model), rp)
+                # theorem C06_center_schedule_timestepfactor: centre = schedule at the last updated step f*(t/f): the target from step 4 on
                 want = 1.0 + 2.0 * min(1.0, tu / 3.0)
                 if not close(o["C"][0], want):
-                    run.violation("timestepfactor:continuous-schedule-stops-short", "timeStepFactor 2, centres 1->3, targetNumSteps 3, step %d: centre %r, schedule at the last updated step %d prescribes %r (the target is never reached)" % (t, o["C"][0], tu, want), rp)
+                    run.violation("timestepfactor:continuous-schedule-stops-short", "timeStepFactor 2, centres 1->3, targetNumSteps 3, step %d: centre %r, schedule at the last updated step %d prescribes %r" % (t, o["C"][0], tu, want), rp)
             elif k == 1:
                 want = 2.0 + 2.0 * min(1.0, tu / 4.0) ** 2
                 if not close(o["K"], want):
@@ -1985,6 +1981,8 @@ def tsf_part(run, runner):
                 if not close(o["C"][0], want):
                     run.violation("timestepfactor:staged-schedule-misses-steps", "timeStepFactor 2, centres 1->3, targetNumSteps 4, 2 stages, step %d: centre %r, schedule (at the last updated step %d) prescribes %r" % (t, o["C"][0], tu, want), rp)
             else:
+                if o["TI"] and abs(o["TI"][0][1] - 1.0) > 1e-4:
+                    run.violation("timestepfactor:ti-divisor", "timeStepFactor 2, k 2->4, targetNumSteps 3, 2 stages, dU/dlambda 1 at every step: dA/dLambda %r written at step %d (only every second step is sampled, the sum is divided by targetNumSteps)" % (o["TI"][0][1], t), rp)
                 want = 2.0 + 2.0 * min(2, tu // 3) / 2.0
                 if not close(o["K"], want):
                     run.violation("timestepfactor:staged-schedule-misses-steps", "timeStepFactor 2, k 2->4, targetNumSteps 3, 2 stages, step %d: k %r, schedule (at the last updated step %d) prescribes %r" % (t, o["K"], tu, want), rp)
